@@ -1091,6 +1091,54 @@ pub fn programs(d: &TypeDesc, first: usize) -> Vec<Prog> {
             (vec![], s, code(15))
         });
     }
+    // the examinee of a match is evaluated ONCE: bindings of a later arm come from that value
+    // even if the guard of an earlier arm (which fails) assigned to the matched variable
+    // (seeded changes C02-6 / C03-7: the matched local used in place instead of a copy)
+    if let Access::Variant { path, variant, others, .. } = &d.access {
+        add!("examinee-reassigned-in-guard".into(), true, Ret::U32, false, |b, _pre| {
+            let full = b.full_mask();
+            let mut s = vec![b.let_cons("a", 0), b.let_cons("b0", full)];
+            let reassign = |to: E| E::Block(blk(vec![st(E::Assign(vec!["a".into()], Box::new(to)))], Some(E::Bool(false))));
+            let mut sources = vec![var("b0")];
+            if let Some(o) = others.first() {
+                sources.push(E::Ctor(path.clone(), o.variant.clone(), o.args.clone()));
+            }
+            for src in sources {
+                // a failing guard on the same variant, then the variant again
+                let (binds1, _) = b.bind_main();
+                let (binds2, comps2) = b.bind_main();
+                let mut body2 = vec![emit_u8(2)];
+                for j in 0..n {
+                    body2.extend(d.fields[j].emit(comps2[j].clone(), &mut b.c));
+                }
+                let mut arms = vec![arm(Some(variant), binds1, Some(reassign(src.clone())), vec![emit_u8(1)]), arm(Some(variant), binds2, None, body2)];
+                arms.push(arm(None, vec![], None, vec![emit_u8(4)]));
+                s.push(st(E::Match(Box::new(var("a")), arms)));
+                // what `a` holds now is seen by the next match; then `a` is restored
+                let (binds3, comps3) = b.bind_main();
+                let mut body3 = vec![emit_u8(3)];
+                for j in 0..n {
+                    body3.extend(d.fields[j].emit(comps3[j].clone(), &mut b.c));
+                }
+                s.push(st(E::Match(Box::new(var("a")), vec![arm(Some(variant), binds3, None, body3), arm(None, vec![], None, vec![emit_u8(5)])])));
+                s.push(st(E::Assign(vec!["a".into()], Box::new(b.cons_mask(0, 0)))));
+                // a failing guard on a `_` arm, then the variant
+                let (binds4, comps4) = b.bind_main();
+                let mut body4 = vec![emit_u8(6)];
+                for j in 0..n {
+                    body4.extend(d.fields[j].emit(comps4[j].clone(), &mut b.c));
+                }
+                let arms = vec![
+                    arm(None, vec![], Some(reassign(src.clone())), vec![emit_u8(7)]),
+                    arm(Some(variant), binds4, None, body4),
+                    arm(None, vec![], None, vec![emit_u8(8)]),
+                ];
+                s.push(st(E::Match(Box::new(var("a")), arms)));
+                s.push(st(E::Assign(vec!["a".into()], Box::new(b.cons_mask(0, 0)))));
+            }
+            (vec![], s, code(19))
+        });
+    }
     // a payload position written as `_` (the language allows one `_` per pattern: it is
     // an ordinary binder name): each position in turn is the wildcard, the named ones
     // must still read their own component (also in a guard) - added after seeded change C02-4
